@@ -101,3 +101,12 @@ Proof.
     + destruct (decide (true = true)); [|congruence]. cbn [length]. f_equal. exact IH.
     + exfalso. apply Hne. apply ref_ltb_total; assumption.
 Qed.
+
+(** outputs of one transaction rank by the number of their index (2 before 10), not by its text *)
+Lemma ref_ltb_same_tx t i j : ref_ltb (t, i) (t, j) = (i <? j)%Z.
+Proof. unfold ref_ltb. cbn [fst snd]. rewrite bytes_ltb_irrefl. reflexivity. Qed.
+Lemma sort_refs_same_tx_pair t i j : (i < j)%Z -> sort_refs [(t, j); (t, i)] = [(t, i); (t, j)].
+Proof.
+  intros H. cbn [sort_refs fold_right insert_ref]. rewrite ref_ltb_same_tx.
+  destruct (Z.ltb_spec j i); [lia|reflexivity].
+Qed.
